@@ -35,6 +35,7 @@ type funk struct {
 	varResumables     map[t.ID]bool
 	derivedVars       map[t.ID]struct{}
 	jumpTargets       map[a.Loop]string
+	jumpTargetNames   map[string]bool
 	activeLoops       a.LoopStack
 	coroSuspPoint     uint32
 	ioManips          uint32
@@ -43,24 +44,36 @@ type funk struct {
 	usesEmptyIOBuffer bool
 	usesScratch       bool
 	hasGotoOK         bool
+
+	numUnlabeledJumpTargets int
 }
 
 func (k *funk) jumpTarget(tm *t.Map, n a.Loop) (string, error) {
-	if label := n.Label(); label != 0 {
-		return label.Str(tm), nil
-	}
-	if k.jumpTargets == nil {
-		k.jumpTargets = map[a.Loop]string{}
-	}
 	if jt, ok := k.jumpTargets[n]; ok {
 		return jt, nil
 	}
-	jtInt := len(k.jumpTargets)
-	if jtInt == 1000000 {
-		return "", fmt.Errorf("too many jump targets")
+	if k.jumpTargets == nil {
+		k.jumpTargets = map[a.Loop]string{}
+		k.jumpTargetNames = map[string]bool{}
 	}
-	jt := strconv.Itoa(jtInt)
+	jt := ""
+	if label := n.Label(); label != 0 {
+		// Loops that aren't nested in each other can share a Wuffs label, but
+		// C labels have function scope. The second (third, etc.) such loop
+		// gets a numeric suffix.
+		jt = label.Str(tm)
+		for i := 2; k.jumpTargetNames[jt]; i++ {
+			jt = fmt.Sprintf("%s__%d", label.Str(tm), i)
+		}
+	} else {
+		if k.numUnlabeledJumpTargets == 1000000 {
+			return "", fmt.Errorf("too many jump targets")
+		}
+		jt = strconv.Itoa(k.numUnlabeledJumpTargets)
+		k.numUnlabeledJumpTargets++
+	}
 	k.jumpTargets[n] = jt
+	k.jumpTargetNames[jt] = true
 	return jt, nil
 }
 
